@@ -140,7 +140,12 @@ func (root *Root) resolve(
 	t Type,
 	depth int) (result interface{}, ea []error) {
 
-	if depth <= 0 || IsNil(obj) {
+	if IsNil(obj) {
+		// A nil pointer, map or slice is a null. Return an untyped nil so
+		// the value is also written as null and not as the string "<nil>".
+		return nil, nil
+	}
+	if depth <= 0 {
 		// If not intended then generate an error later when trying to
 		// generate output.
 		return obj, nil
